@@ -31,7 +31,7 @@ from vlib import vZ, vlist, vopt
 LEVEL = "proof"
 TRUSTED_BASE = [
     "Coq 8.16.1 kernel + vm_compute (evaluation of the sparse reference on every case); no native_compute",
-    "axioms: none (Print Assumptions: Closed under the global context for all 32 C16 theorems)",
+    "axioms: none (Print Assumptions: Closed under the global context for all 33 C16 theorems)",
     "Model/SparseOps.v as the sparse-only reference (proved: den of every operation = NumPy meaning; longest "
     "list built <= stored elements [+ rows for the GCXS-like form], independent of size(shape)); its result is sorted "
     "with Coq's verified merge sort and pruned (canon_den, canon_eq_sound) before the raw coords/data are compared",
@@ -39,7 +39,7 @@ TRUSTED_BASE = [
     "(slice.indices / len(range)) used to normalise Python slices in the judge",
     "Model/GCXS.v gcxs_as_coo / gcxs_wfb and Corr/SArr.v as the meaning of what the implementation returned",
     "tools/sitegen/dense_sites.py (AST walk listing densifying calls and NumPy allocators of the anchored files) "
-    "and the reviewed table in Model/SparseOps.v (review by reading; reasons recorded per row)",
+    "and the reviewed table in Model/DenseSites.v (review by reading; reasons recorded per row)",
     "correspondence harness tools/props/c16.py, tools/vlib.py: fork-per-call isolation, RLIMIT_AS = baseline + 3 GiB, "
     "30 s limit, translation of each API call into an expression over the reference operations",
     "Corr/C16Judge.v sp_sort_last (sort along the last axis) has no theorem: differential only",
@@ -902,12 +902,20 @@ def replay_program(case):
             "print(c16.impl_case(case))")
 
 
+_IMPL_CACHE = {}     # (tier, seed, repository) -> (cases, results, seconds): the implementation side of one check process
+
+
 def campaign(build, tier, seed, report, budget=1):
-    rng = random.Random(seed * 7919 + 16)
-    cases = gen_cases(tier, rng)
-    t0 = time.time()
-    res = vlib.run_impl("props.c16", "impl_case", cases, workers=6, per_case_timeout=TLIMIT + 20.0)
-    t_impl = time.time() - t0
+    # when the regenerated development does not build, tools/check.py calls campaign() a second time with the
+    # reference model: the implementation's answers are the same, only the Coq side changes -> run it once
+    key = (tier, seed, vlib.REPO)
+    if key not in _IMPL_CACHE:
+        rng = random.Random(seed * 7919 + 16)
+        cases = gen_cases(tier, rng)
+        t0 = time.time()
+        res = vlib.run_impl("props.c16", "impl_case", cases, workers=6, per_case_timeout=TLIMIT + 20.0)
+        _IMPL_CACHE[key] = (cases, res, time.time() - t0)
+    cases, res, t_impl = _IMPL_CACHE[key]
     lits = [lit_case(c, r) for c, r in zip(cases, res, strict=True)]
     # cases with many stored elements are quadratic in Coq: small chunks so that they run in parallel
     t0 = time.time()
